@@ -75,7 +75,7 @@ def run(run):
     C.build_driver()
     h, d = C.Harness(), C.Driver()
     rng = run.rng
-    quick = run.tier == "quick"
+    quick = run.depth == "quick"
     stats = collections.Counter()
     mism = []
     wf_bad = []
@@ -207,7 +207,7 @@ def run(run):
             if s == 0:
                 run.sample(dict(console_stdin=payload[:400], answered=len(expected)))
         # ---- thorough: native fuzzing of the query path
-        if not quick:
+        if run.tier == "thorough":
             fz = C.HARNESS_DIR
             env = dict(C.GOENV, GOFLAGS="-mod=mod")
             rc, out = C.sh(["go", "test", "-tags", "verif", "-run", "^$", "-fuzz", "FuzzQuery", "-fuzztime", "120s", "."], cwd=fz, env=env, timeout=900)
